@@ -184,12 +184,143 @@ class Explorer34(order.Explorer):
     def merge_state(self):
         return set(self.p.seqvar) | {self.p.target, self.p.size}
 
+    # ---- calls of a local closure / a helper function whose body is in the IR are read as their body
+    def helper_of(self, e):
+        """(body function, argument list, captures or None) if e calls a closure held by a never-reassigned local or a
+        function with a body in the IR; None if e is no such call"""
+        p = self.p
+        n = strip_casts(e)
+        if n is None or "callee" not in n or n["k"] not in ("CXXOperatorCallExpr", "CallExpr"):
+            return None
+        if n["k"] == "CXXOperatorCallExpr":
+            if n.get("op") != "()" or not kids(n):
+                return None
+            r = ref_of(strip_casts(kids(n)[0]))
+            if not hasattr(self, "_decls"):
+                self._decls = {z.get("did"): z for z in walk(p.fn.body) if z["k"] == "VarDecl"}
+            v = self._decls.get(r) if r is not None else None
+            lam = match.strip_conv(kids(v)[0]) if v is not None and kids(v) else None
+            if lam is None or lam["k"] != "LambdaExpr":
+                return None
+            f = p.tu.by_did.get(lam.get("fn"))
+            if f is None or f.body is None or n["callee"].get("did") != lam.get("fn"):
+                return None
+            return f, kids(n)[1:], lam.get("captures", [])
+        if n.get("member_call") or n["callee"]["name"] == "unused":
+            return None
+        f = p.tu.by_did.get(n["callee"].get("did"))
+        if f is None or f.body is None:
+            return None
+        # only helpers that receive merge state are read; other calls stay what they were for the automaton
+        st = self.merge_state()
+        if not any(z["k"] == "DeclRefExpr" and z["ref"]["id"] in st for a in kids(n) if a is not None for z in walk(a)):
+            return None
+        return f, kids(n), None
+
+    def inline(self, call):
+        """(statements, returned expression or None): the body of the called helper with its reference parameters replaced
+        by the arguments; Undecidable unless the replacement is exact (arguments are plain variables, merge state is
+        passed / captured by reference, the only return is the last statement)"""
+        p = self.p
+        f, args, caps = self.helper_of(call)
+        where = p.fn.nloc(strip_casts(call))
+        hname = f.name if caps is None else "closure %s" % dtable.describe(kids(strip_casts(call))[0])
+        st = self.merge_state()
+        if len(args) != len(f.params):
+            raise Undecidable("%s: helper %s called with %d arguments for %d parameters" % (where, hname, len(args), len(f.params)))
+        sub = {}
+        for prm, a in zip(f.params, args):
+            a0 = strip_casts(a)
+            if a0 is None or a0["k"] != "DeclRefExpr":
+                raise Undecidable("%s: argument of helper %s is not a plain variable: %s" % (where, hname, dtable.describe(a)))
+            ty = (prm.get("ty") or "").rstrip()
+            byref = ty.endswith("&") and not ty.endswith("&&")
+            if not byref and (a0["ref"]["id"] in st or writes_to(f.body, prm["did"])):
+                raise Undecidable("%s: helper %s receives %s by value" % (where, hname, a0["ref"].get("name")))
+            sub[prm["did"]] = a0
+        if caps is not None:
+            capd = {c.get("id"): c for c in caps}
+            for z in walk(f.body):
+                if z["k"] == "DeclRefExpr" and z["ref"]["id"] in st:
+                    c = capd.get(z["ref"]["id"])
+                    if c is None or not c.get("byref"):
+                        raise Undecidable("%s: closure uses %s of the merge state without capturing it by reference"
+                                          % (where, z["ref"].get("name")))
+                if z["k"] == "This":
+                    raise Undecidable("%s: closure uses this" % where)
+
+        def repl(n):
+            if n is None:
+                return None
+            if n["k"] == "DeclRefExpr" and n["ref"]["id"] in sub:
+                return sub[n["ref"]["id"]]
+            if "ch" in n:
+                return dict(n, ch=[repl(c) for c in n["ch"]])
+            return n
+        body = f.body
+        stmts = kids(body) if body["k"] == "CompoundStmt" else [body]
+        ret = None
+        if stmts and stmts[-1] is not None and stmts[-1]["k"] == "ReturnStmt":
+            ret = kids(stmts[-1])[0] if kids(stmts[-1]) else None
+            stmts = stmts[:-1]
+        for s in stmts:
+            for z in walk(s):
+                if z["k"] in ("ReturnStmt", "GotoStmt", "LabelStmt", "LambdaExpr"):
+                    raise Undecidable("%s: %s inside helper %s not understood" % (p.fn.nloc(z), z["k"], hname))
+        return [repl(s) for s in stmts], (repl(ret) if ret is not None else None)
+
+    def hoist_step(self, c):
+        """(statement, condition without it) if the condition c tests the value of a prefix ++/-- of the length against a
+        constant (if (--size == 0)): the step is done first, then the plain variable is tested"""
+        p = self.p
+        c0 = strip_casts(c)
+        if c0 is None:
+            return None
+        if c0["k"] == "UnaryOperator" and c0.get("op") == "!" and kids(c0):
+            h = self.hoist_step(kids(c0)[0])
+            return (h[0], dict(c0, ch=[h[1]])) if h else None
+        if c0["k"] == "UnaryOperator" and c0.get("op") in ("++", "--") and not c0.get("postfix") and ref_of(kids(c0)[0]) == p.size:
+            return c0, strip_casts(kids(c0)[0])
+        if c0["k"] == "BinaryOperator" and c0.get("op") in ("==", "!=", "<", "<=", ">", ">="):
+            l, r = kids(c0)
+            for i, (x, y) in enumerate(((l, r), (r, l))):
+                x0 = strip_casts(x)
+                if x0 is not None and x0["k"] == "UnaryOperator" and x0.get("op") in ("++", "--") and not x0.get("postfix") \
+                        and ref_of(kids(x0)[0]) == p.size and const_int(y) is not None:
+                    var = strip_casts(kids(x0)[0])
+                    return x0, dict(c0, ch=[var, y] if i == 0 else [y, var])
+        return None
+
     def norm(self, s):
         p = self.p
         n = strip_casts(s)
         if n is None:
             return s
         k = n["k"]
+        # helper / closure calls: as a statement, or as the (possibly negated) condition of an if
+        if self.helper_of(n):
+            stmts, ret = self.inline(n)
+            r0 = match.strip_conv(ret) if ret is not None else None
+            if r0 is not None and r0["k"] != "DeclRefExpr" and any(
+                    match.unop(z, ("++", "--")) or "callee" in z or
+                    (z["k"] in ("BinaryOperator", "CompoundAssignOperator") and z.get("op") in ASSIGN_OPS) for z in walk(ret)):
+                stmts = stmts + [ret]        # a returned expression with effects is executed (and must be understood)
+            return _synth(n, "CompoundStmt", stmts)
+        if k == "IfStmt":
+            c, t, e = (kids(n) + [None, None])[:3]
+            c0 = strip_casts(c)
+            neg = False
+            while c0 is not None and c0["k"] == "UnaryOperator" and c0.get("op") == "!" and kids(c0):
+                neg, c0 = not neg, strip_casts(kids(c0)[0])
+            if c0 is not None and self.helper_of(c0):
+                stmts, ret = self.inline(c0)
+                if ret is None:
+                    raise Undecidable("%s: helper without a returned value used as a condition" % p.fn.nloc(c0))
+                cond = _synth(c0, "UnaryOperator", [ret], op="!", ty="bool") if neg else ret
+                return _synth(n, "CompoundStmt", stmts + [dict(n, ch=[cond, t, e])])
+            h = self.hoist_step(c)
+            if h:
+                return _synth(n, "CompoundStmt", [h[0], dict(n, ch=[h[1], t, e])])
         if k in ("BinaryOperator", "CompoundAssignOperator", "CXXOperatorCallExpr"):
             for did in (p.target, p.size):
                 d = step_of(n, did)
